@@ -8,6 +8,7 @@ CONSTANTS
   AllowCorrupt = TRUE
   AllowRuns = FALSE
   Sim = FALSE
+  DynOnly = FALSE
   DynOpts <- AllDynOpts
   LitPalette <- SmallLit
   DistPalette <- SmallDist
